@@ -702,4 +702,9 @@ def run(chk):
     # "reported as written" reaches the user as a successful flush: the flush decision table and the receiver's in-batch flag belong here too
     batcher.when_flushed_table(chk, P, "C10.batcher")
     batcher.receiver_flags(chk, P, "C10.batcher")
+    from . import shapes
+    shapes.returns_binop(chk, P, "C10.R7:EventBatch::len", "the number of events a file batch still holds is the buffers past the cursor: bufs.len() - index",
+                         "<emit_file::EventBatch as emit_batcher::Channel>::len", "Sub",
+                         lambda o, b: o[0] == "call" and o[1].callee.get("name") == "len" and "bufs" in o_str(b.origin(o[1].args[0])), lambda o, b: "index" in o_str(o),
+                         "a partly written batch would report the wrong number of pending events: the retry and the capacity accounting work on that number")
     return chk
